@@ -37,6 +37,40 @@ let lookup (name : string) : OpUtils.opfn option =
   | "op_sha256_tree" -> Some (OpsStr.op_sha256_tree sha)
   | _ -> None
 
+(* the documented cost formulas (Model/CostSpec.v) *)
+let spec_lookup (name : string) : (Flags.flagset -> Sexp.sexp -> Sexp.sexp -> BinNums.coq_N) option =
+  match name with
+  | "op_if" -> Some CostSpec.spec_if
+  | "op_cons" -> Some CostSpec.spec_cons
+  | "op_first" -> Some CostSpec.spec_first
+  | "op_rest" -> Some CostSpec.spec_rest
+  | "op_listp" -> Some CostSpec.spec_listp
+  | "op_eq" -> Some CostSpec.spec_eq
+  | "op_add" -> Some CostSpec.spec_add
+  | "op_subtract" -> Some CostSpec.spec_subtract
+  | "op_multiply" -> Some CostSpec.spec_multiply
+  | "op_div" -> Some CostSpec.spec_div
+  | "op_divmod" -> Some CostSpec.spec_divmod
+  | "op_mod" -> Some CostSpec.spec_mod
+  | "op_modpow" -> Some CostSpec.spec_modpow
+  | "op_gr" -> Some CostSpec.spec_gr
+  | "op_gr_bytes" -> Some CostSpec.spec_gr_bytes
+  | "op_strlen" -> Some CostSpec.spec_strlen
+  | "op_substr" -> Some CostSpec.spec_substr
+  | "op_concat" -> Some CostSpec.spec_concat
+  | "op_ash" -> Some CostSpec.spec_ash
+  | "op_lsh" -> Some CostSpec.spec_lsh
+  | "op_logand" -> Some CostSpec.spec_logand
+  | "op_logior" -> Some CostSpec.spec_logior
+  | "op_logxor" -> Some CostSpec.spec_logxor
+  | "op_lognot" -> Some CostSpec.spec_lognot
+  | "op_not" -> Some CostSpec.spec_not
+  | "op_any" -> Some CostSpec.spec_any
+  | "op_all" -> Some CostSpec.spec_all
+  | "op_sha256" -> Some CostSpec.spec_sha256
+  | "op_sha256_tree" -> Some CostSpec.spec_sha256_tree
+  | _ -> None
+
 let starts_with p s = String.length s >= String.length p && String.sub s 0 (String.length p) = p
 let after p s = String.sub s (String.length p) (String.length s - String.length p)
 
@@ -76,6 +110,17 @@ let fam_ops (t : string array) : string =
              flags.Flags.f_new_cost_model (n_of_dec t.(3)) with
      | Some c -> "some " ^ dec_of_n c
      | None -> "none")
+  (* spec <name> <flags> <tree>: the documented cost of a successful call (the result value is
+     the model's): "spec <documented cost> model <model cost>" | "none" (the call fails) *)
+  | "spec" ->
+    let flags = Flags.flags_of_N (n_of_dec t.(2)) in
+    let args = Util.parse_tree t.(3) in
+    (match lookup t.(1), spec_lookup t.(1) with
+     | Some f, Some sp ->
+       (match f flags args (n_of_dec "18446744073709551615") with
+        | Err.Ok (c, v) -> "spec " ^ dec_of_n (sp flags args v) ^ " model " ^ dec_of_n c
+        | Err.Err _ -> "none")
+     | _ -> "none")
   | _ -> failwith "bad ops case"
 
 let () = Reg.register "ops" fam_ops
